@@ -50,6 +50,7 @@ import (
 type Opts struct {
 	Reverse           bool // opposite visiting order (see package doc)
 	NoSourceLocations bool // leave SourceLocations out (builders that drop source info by design)
+	SizeHint          int  // expected number of entries (see Hint); only an allocation hint
 }
 
 // Snap is an accessor snapshot: key -> value.
@@ -67,7 +68,7 @@ type walker struct {
 
 // Of snapshots fd.
 func Of(fd protoreflect.FileDescriptor, o Opts) Snap {
-	w := &walker{o: o, out: Snap{}}
+	w := &walker{o: o, out: make(Snap, o.SizeHint)}
 	w.file(fd)
 	return w.out
 }
